@@ -19,23 +19,23 @@ NA = {
 PENDING = {k:"claimed in DESIGN.md section 4 but its world is not implemented yet in this commit (under construction)" for k in []}
 CHECKS = {
 "C20": dict(world="storagefaults", cat="fault_enumeration", ref="DESIGN.md 4.6",
-  text="Storage-fault injection over a corpus of durable documents (the repo's sample policies, schemas, entities, contexts, JSON policies; generated documents with every operator, escapes, boundary literals and nesting up to 48; cedar's own protobuf encodings; FFI envelopes): the quick tier enumerates every truncation point and every single-bit flip in the first 64 bytes of every document of at most 2 KiB, then samples multi-fault plans (torn write, bit flip, token overwrite/insert, zero/duplicate/drop range, splice, lost write, invalid UTF-8, wrong-format delivery) plus reader/writer faults (short reads/writes, EINTR, hard error or zero-length write at byte k). Each faulted document is driven through parse -> print / convert / format / validate / authorize / link, or its error is rendered every way, in crash-isolated worker processes. Oracle: no panic (catch_unwind per stage), no death by signal, termination (watchdog + re-examination alone).",
+  text="Storage-fault injection over a corpus of durable documents (the repo's sample policies, schemas, entities, contexts, JSON policies; generated documents with every operator, escapes, boundary literals and nesting up to 48; cedar's own protobuf encodings; FFI envelopes): the quick tier runs every document unfaulted through each of its entry points and enumerates (thinned for envelopes and encodings) every truncation point and every single-bit flip in the first 64 bytes of every document of at most 2 KiB, every structure-aware JSON fault at every node, a stray escape / quote / lost byte at every position of the generated documents and every one- and two-token document, then samples multi-fault plans (torn write, bit flip, token overwrite/insert, zero/duplicate/drop range, splice, lost write, invalid UTF-8, wrong-format delivery) plus reader/writer faults (short reads/writes, EINTR, hard error or zero-length write at byte k). Each faulted document is driven through parse -> print / convert (JSON, PST, protobuf) / format / validate (strict, permissive, levels) / authorize / link / partial evaluation / type-aware partial evaluation / batched evaluation / permission queries, against the generic and its own bundle's schema, entities and requests; every error, warning and diagnostic obtained on the way is rendered every way (message, help, code, labels, graphical / narratable / JSON report), in crash-isolated worker processes; a few designated documents run alone under a time limit. Oracle: no panic (catch_unwind per stage), no death by signal, termination (watchdog + re-examination alone).",
   note="Trusted: catch_unwind and process exit status as panic/abort detectors; the conservative nesting measure that skips documents deeper than 48. Sampling beyond the enumerated single faults. Reader-error propagation is a statistic, not an oracle.",
   tech="deterministic simulation: fault enumeration/injection on stored bytes and on Read/Write seams, crash-isolated workers, watchdog"),
 "C19": dict(world="frontends", cat="exploration", ref="DESIGN.md 4.5",
-  text="Seeded search over histories of front-end calls issued from 1-3 parked caller threads (the simulator decides which thread makes each call): stateless FFI authorization in every input shape, preparse/re-registration histories with invalid documents, stateful authorization against a per-thread model of the registration cache, FFI validate / format / convert / check-parse, and the real cedar CLI run as a subprocess over a simulated disk with file faults (absent, torn, bit-flipped, swapped, emptied, garbage). Every answer is compared with the Rust API fed the same documents (for stateful calls: with the stateless FFI call on the modelled registered documents).",
+  text="Seeded search over histories of front-end calls issued from 1-3 parked caller threads (the simulator decides which thread makes each call): stateless FFI authorization in every input shape, preparse/re-registration histories with invalid documents, stateful authorization against a per-thread model of the registration cache, FFI validate / format / convert / check-parse, and the real cedar CLI run as a subprocess over a simulated disk with file faults (absent, torn, bit-flipped, swapped, emptied, garbage): authorize (flags or --request-json, text or JSON policies, links file), `link` followed by authorize over the links file it left behind, validate (--deny-warnings, --level), translate-policy, translate-schema, check-parse, format --check. Every answer is compared with the Rust API fed the same documents (for stateful calls: with the stateless FFI call on the modelled registered documents).",
   note="Trusted: the Rust API as reference implementation (the property is a refinement between two real implementations), the harness's independent assembly of policy sets / schemas / requests the documented way, the per-thread cache model. 'Currently registered' is read as per calling thread (documented thread-local). Error messages are not compared, only success/failure, decisions, id sets and converted values.",
   tech="deterministic simulation: parked caller threads with a seeded scheduler over thread-local caches, registration histories with failing re-registrations, CLI subprocess over a fault-injected file store; API as differential reference"),
 "C08": dict(world="policyset", cat="exploration", ref="DESIGN.md 4.3",
-  text="Seeded search over policy-set edit histories (add, add_template, link with exact/missing/extra/wrong-target bindings, unlink, remove_static, remove_template, merge with and without renaming where `other` comes from its own sub-history) over a small colliding id pool, about half of the operations designed to fail; after every step the set is compared with a name/role model at set level, authorization over the edited set with the model's table, and every new link with the static policy obtained by textual substitution on all probe requests (plus effect and annotations).",
-  note="Trusted: the name/role model and conflict rule written from the documented contracts, the atom evaluator shared with C01, the getrandom interposition. 'Unchanged after a failed op' is judged at set level, not iteration order; merge may rename more than necessary.",
+  text="Seeded search over policy-set edit histories (add, add_template, link with exact/missing/extra/wrong-target bindings, unlink, remove_static, remove_template, merge with and without renaming where `other` comes from its own sub-history) over a small colliding id pool, about half of the operations designed to fail; policy objects taken out of the set are handed back to `add`; after every step the set is compared with a name/role model at set level (after a failed step also with its own clone taken before, by == and by iteration order), authorization over the edited set with the model's table, and every new link with the static policy obtained by textual substitution on all probe requests (plus effect and annotations).",
+  note="Trusted: the name/role model and conflict rule written from the documented contracts, the atom evaluator shared with C01, the getrandom interposition. merge may rename more than necessary.",
   tech="deterministic simulation: seeded edit/merge histories with designed-to-fail operations vs name/role model + substitution oracle"),
 "C01": dict(world="authz", cat="exploration", ref="DESIGN.md 4.1",
   text="Seeded search over histories of policy-set edits, store edits and authorization calls against one long-lived Authorizer; every response (decision, reason set, erroring ids) is compared with an exact reference model (three-valued atom evaluator + decision table); purity is decided by re-issuing requests on unchanged state and by rebuilding the same logical state on fresh threads under other hash orders, permuted insertion orders and respelled / auto-numbered policy ids.",
-  note="Trusted: the harness's ~150-line atom evaluator and decision table, the getrandom interposition. The atom family is workload (scope forms, when/unless, type errors, overflow, missing attributes/entities), not the whole expression language. Errors compared as id sets; messages and vector order not compared.",
+  note="Trusted: the harness's ~150-line atom evaluator and decision table, the getrandom interposition. The atom family is workload (scope forms, when/unless, type errors, overflow, missing attributes/entities, `unknown(..)` residuals), not the whole expression language. Errors compared as id sets; messages and vector order not compared.",
   tech="deterministic simulation: seeded call/edit histories + hash-order, insertion-order and id-spelling replicas vs exact reference model"),
 "C15": dict(world="batched", cat="exploration", ref="DESIGN.md 4.4",
-  text="Seeded search over (validated policy set, conformant store with absent entities, request, delivery-fault plan of a simulated entity-store service behind the EntityLoader seam) with every iteration budget 0..=n+1 enumerated per scenario; each batched call is compared with ordinary authorization over the same store; monotonicity in the budget and bounded liveness (budget n+1 decides) are checked over the recorded per-budget history.",
+  text="Seeded search over (validated policy set incl. templates with several links and an action that applies to two resource types, conformant store with absent entities, request, delivery-fault plan of a simulated entity-store service behind the EntityLoader seam) with every iteration budget 0..=n+1 enumerated per scenario; each batched call is compared with ordinary authorization over the same store; monotonicity in the budget and bounded liveness (budget n+1 decides) are checked over the recorded per-budget history.",
   note="Trusted: the real strict validator / schema-based entity and request validation as precondition filters, Authorizer::is_authorized as reference, the harness's counting of distinct entity ids. Assumes re-delivery of already delivered entities is within the loader contract.",
   tech="deterministic simulation: simulated loader service with seeded delivery faults, budgets enumerated, differential oracle + history checks (monotone, bounded liveness)"),
 "C04": dict(world="hierarchy", cat="exploration", ref="DESIGN.md 4.2",
